@@ -125,6 +125,10 @@ type Engine struct {
 	fmtOpaque    []fmtRecord
 	regexEncodings int
 	params       map[string]string
+	clockSymbolic bool
+	clockLast    *Term
+	registry     map[string]value
+	netDials     int
 }
 
 var E *Engine
@@ -162,6 +166,10 @@ func (e *Engine) resetPath() {
 	e.reportPanics = true
 	e.schedFork = false
 	e.traceCalls = false
+	e.clockSymbolic = false
+	e.clockLast = nil
+	e.registry = map[string]value{}
+	e.netDials = 0
 }
 
 // endPath terminates the current path with the given outcome.
